@@ -7,7 +7,7 @@ vector.  Not decided: the one-to-one correspondence itself (a counting statement
 errors raised inside user-supplied callables."""
 import re
 
-from vlib import mir, scan, tpl, derived
+from vlib import resalg, mir, scan, tpl, derived
 from . import common
 
 META = dict(
@@ -147,14 +147,21 @@ def run(ctx):
             ctx.requires("C02.P.body-enum-finish", f, blk, "finish_with", [r"discr\(a1\)=Enum"])
         hs = [h for h in ctx.per_element(f, r"Accumulator::handle$") if re.search(r"FromVariant(>)?::from_variant\(", ctx.expr(h["owner"], h["t"]["args"][1]))]
         ok = len(hs) == 1 and hs[0]["form"] in ("adapter", "loop") and "(a1 as Enum).0.variants" in hs[0]["source"]
+        if not hs:
+            # `match from_variant(v) { Ok(x) => items.push(x), Err(e) => errors.push(e) }` per variant
+            ps = [h for h in ctx.per_element(f, r"Accumulator::push$") if re.search(r"^\(.*FromVariant(>)?::from_variant\(.*\) as Err\)\.0$", ctx.expr(h["owner"], h["t"]["args"][1]))]
+            ok = len(ps) == 1 and ps[0]["form"] in ("adapter", "loop") and "(a1 as Enum).0.variants" in ps[0]["source"]
+            hs = ps
         ctx.ob("C02.P.body-enum-handle", f.key, "handle(from_variant(v)) per variant", ok, "per-variant handles: %s" % [(h["form"], h["source"][:100]) for h in hs])
     f = ctx.fn("darling_core::ast::data::Fields::<F>::try_from")
     if f:
         fin = ctx.find_calls(f, r"Accumulator::finish$")
-        oks = ctx.find_aggregates(f, r"^core::result::Result$", "Ok")
-        ctx.ob("C02.P.body-fields-finish", f.key, "finish()? before Ok", len(fin) == 1 and len(oks) == 1 and f.dominates(fin[0][0], oks[0][0]), "finish calls %d, Ok %d" % (len(fin), len(oks)))
-        for blk, i, st in oks:
-            ctx.requires("C02.P.body-fields-finish", f, blk, "Ok", [r"is_ok\(.*Accumulator::finish\(.*\)\)=True"])
+        cs = resalg.cases(ctx, f)
+        okrows = [(c, v) for c, v in cs if v.startswith("core::result::Result::Ok{")]
+        other = [(c, v) for c, v in cs if not v.startswith("core::result::Result::Ok{")]
+        ok = len(fin) == 1 and bool(okrows) and all(any(re.match(r"^is_ok\(.*Accumulator::finish\(.*\)\)=True$", a) for a in c) for c, v in okrows) \
+            and all(re.match(r"^core::result::Result::Err\{\(.*Accumulator::finish\(.*\) as Err\)\.0\}$", v) for c, v in other)
+        ctx.ob("C02.P.body-fields-finish", f.key, "finish()? before Ok", ok, "finish calls %d, Ok rows %d, other rows %s" % (len(fin), len(okrows), [v[:100] for c, v in other]))
         cl = ctx.closures_of(f)
         handles = [c.key for c in cl if ctx.find_calls(c, r"Accumulator::handle") and ctx.find_calls(c, r"FromField>::from_field$")]
         ctx.ob("C02.P.body-fields-handle", f.key, "handle(from_field(f)) per field (named and unnamed)", len(handles) == 2, "closures handling fields: %s" % handles)
